@@ -42,6 +42,7 @@ class R:
         self.scopes = {}      # scope instance -> list of argument values
         self.next_scope = 0
         self.nfun = 0
+        self.pending = []     # (index into expect, scope): before that delivery the call takes one value of the global stream as an argument
 
     def new_scope(self, args):
         sid = self.next_scope
@@ -50,8 +51,17 @@ class R:
         return sid
 
     def args_for(self, k):
+        """pairwise distinct arguments; in every other scope the first argument is a list (a call with one list
+        argument has ONE argument: its implicit reads deliver that list, not its items)"""
         base = 2000 + 10 * self.next_scope
-        return [base + j for j in range(k)]
+        out = [base + j for j in range(k)]
+        if self.next_scope % 2 == 1:
+            out[0] = [base + 5, base + 6]
+        return out
+
+
+def lit(a):
+    return "⟨" + "|".join(lit(x) for x in a) + "⟩" if isinstance(a, list) else str(a)
 
 
 def render_ops(r, ops, scope):
@@ -85,7 +95,7 @@ def render_ops(r, ops, scope):
                 args = r.args_for(2)
                 sids = []
                 # two calls, one per item; each has the single argument = the item
-                r.text.append(f"⟨{args[0]}|{args[1]}⟩ƛ_")
+                r.text.append(f"⟨{lit(args[0])}|{lit(args[1])}⟩ƛ_")
                 mark = len(r.text)
                 # body is rendered once in the text but executed twice: expectations are duplicated
                 sub = R()
@@ -104,7 +114,7 @@ def render_ops(r, ops, scope):
             else:
                 args = r.args_for(k)
                 sid = r.new_scope(args)
-                lits = " ".join(str(a) for a in args) + " "
+                lits = " ".join(lit(a) for a in args) + " "
                 if how == "lam":
                     r.text.append(lits + f"λ{k}|" + "_" * k)
                     render_ops(r, body, sid)
@@ -116,6 +126,19 @@ def render_ops(r, ops, scope):
                     r.text.append(";†⅛")
                     r.expect.append(("S", sid))
                     r.decode.append(None)
+                elif how == "funs":
+                    # named function with a numeric parameter called on a stack that holds one argument too few
+                    # (top level only): the missing argument is an implicit read of the caller, i.e. the next
+                    # value of the program's input stream, and becomes one of the call's arguments
+                    if scope is not None:
+                        raise ValueError("short-stack call is only generated at top level")
+                    r.nfun += 1
+                    name = "f" + "abcdefghij"[r.nfun % 10] + "lmnopqrstu"[(r.nfun // 10) % 10]
+                    r.text.append("W_" + f"@{name}:{k}|" + "_" * k)
+                    r.scopes[sid] = list(args[1:])
+                    r.pending.append((len(r.expect), sid))
+                    render_ops(r, body, sid)
+                    r.text.append(";" + " ".join(lit(a) for a in args[1:]) + f" @{name};W_")
                 else:
                     r.nfun += 1
                     name = "f" + "abcdefghij"[r.nfun % 10] + "lmnopqrstu"[(r.nfun // 10) % 10]
@@ -160,7 +183,13 @@ def check(ops, inputs):
     n = len(inputs)
     cursor = 0
     per_scope = {}
+    pending = dict(r.pending)
+    scope_args = {sid: list(a) for sid, a in r.scopes.items()}
+    tail_pending = [sid for idx, sid in r.pending if idx >= len(r.expect)]
     for i, (got, exp) in enumerate(zip(deliveries, r.expect)):
+        if i in pending:
+            scope_args[pending[i]].append(inputs[cursor % n] if n else 0)
+            cursor += 1
         if exp == ("G",):
             want = norm(inputs[cursor % n]) if n else norm(0)
             cursor += 1
@@ -172,17 +201,17 @@ def check(ops, inputs):
         else:
             per_scope.setdefault(exp[1], []).append(got)
     for sid, reads in per_scope.items():
-        args = [norm(a) for a in r.scopes[sid]]
+        args = [norm(a) for a in scope_args[sid]]
         k = len(args)
         if k == 0:
             continue
         for j, v in enumerate(reads):
             if v != reads[j % k]:
-                return ("C11:scope:not-periodic", f"program {text!r} with inputs {inputs!r}: implicit reads of a call with arguments {r.scopes[sid]!r} "
+                return ("C11:scope:not-periodic", f"program {text!r} with inputs {inputs!r}: implicit reads of a call with arguments {harness.jsonable(args)!r} "
                         f"were {harness.jsonable(reads)!r}: not periodic with period {k}")
         head = reads[:k]
         if len(set(map(repr, head))) != len(head) or any(v not in args for v in head):
-            return ("C11:scope:not-the-arguments", f"program {text!r} with inputs {inputs!r}: implicit reads of a call with arguments {r.scopes[sid]!r} "
+            return ("C11:scope:not-the-arguments", f"program {text!r} with inputs {inputs!r}: implicit reads of a call with arguments {harness.jsonable(args)!r} "
                     f"were {harness.jsonable(reads)!r}: not a permutation of the call's arguments")
     return None
 
@@ -213,7 +242,7 @@ INNER = st.one_of(st.just(("E",)), st.just(("I1",)), st.just(("I1",)))
 
 def scope(depth):
     body = st.lists(INNER if depth == 0 else st.one_of(INNER, INNER, scope(depth - 1)), min_size=1, max_size=4)
-    plain = st.tuples(st.sampled_from(["lam", "fun", "lam0"]), st.integers(1, 3), body).map(lambda t: ("S", t[0], t[1], t[2]))
+    plain = st.tuples(st.sampled_from(["lam", "fun", "lam0"] + (["funs"] if depth == 1 else [])), st.integers(1, 3), body).map(lambda t: ("S", t[0], t[1], t[2]))
     mp = st.lists(INNER, min_size=1, max_size=3).map(lambda b: ("S", "map", 1, b))
     return st.one_of(plain, plain, mp)
 
@@ -242,7 +271,7 @@ def _do(rec, ops, in_specs, cls):
 def _shard_exh(rec, arg):
     shard, nshards, maxlen = arg
     alphabet = [("E",), ("I1",), ("I2",), ("I3",), ("L", ["E", "I"]), ("S", "lam", 2, [("I1",), ("E",), ("I1",), ("I1",)]),
-                ("S", "fun", 1, [("E",), ("I1",)]), ("S", "map", 1, [("I1",), ("E",)]), ("S", "lam0", 1, [("I1",)])]
+                ("S", "fun", 1, [("E",), ("I1",)]), ("S", "map", 1, [("I1",), ("E",)]), ("S", "lam0", 1, [("I1",)]), ("S", "funs", 2, [("I1",), ("E",), ("I1",)])]
     i = 0
     for n_in in range(0, 4):
         ins = [1000 + j for j in range(n_in)]
@@ -272,7 +301,7 @@ def run(rec, tier, seed):
     quick = tier == "quick"
     ns = campaign.NCPU
     campaign.parallel(rec, _shard_exh, [(s, ns, 3 if quick else 4) for s in range(ns)])
-    rec.exhaustive.append(f"all histories of length<={3 if quick else 4} over 9 operation kinds x 0..3 inputs")
+    rec.exhaustive.append(f"all histories of length<={3 if quick else 4} over 10 operation kinds x 0..3 inputs")
     n = 150 if quick else 6000
     campaign.parallel(rec, _shard_hyp, [(seed * 1000 + i, n) for i in range(ns)])
 
@@ -285,7 +314,7 @@ def _ops_from_json(x):
             out.append((k,))
         elif k == "L" and len(op) == 2 and op[1] and all(i in ("E", "I") for i in op[1]):
             out.append(("L", list(op[1])))
-        elif k == "S" and len(op) == 4 and op[1] in ("lam", "fun", "map", "lam0") and isinstance(op[2], int) and 1 <= op[2] <= 3:
+        elif k == "S" and len(op) == 4 and op[1] in ("lam", "fun", "map", "lam0", "funs") and isinstance(op[2], int) and 1 <= op[2] <= 3:
             body = _ops_from_json(op[3])
             if not body or any(b[0] not in ("E", "I1", "S") for b in body):
                 raise ValueError(op)
